@@ -235,7 +235,7 @@ func (ex *Exec) evalUnary(st *State, n *ast.UnaryExpr) Val {
 	case token.NOT:
 		return SV{T: Not(ex.evalExpr(st, n.X).(SV).T)}
 	case token.SUB:
-		return SV{T: App("-", SInt, ex.evalExpr(st, n.X).(SV).T)}
+		return ex.arithResult(st, SV{T: App("-", SInt, ex.evalExpr(st, n.X).(SV).T)}, ex.info.TypeOf(n), n)
 	case token.ADD:
 		return ex.evalExpr(st, n.X)
 	case token.AND:
@@ -308,11 +308,11 @@ func (ex *Exec) binop(st *State, op token.Token, a, b Val, ta, tb types.Type, no
 		if x.Sort == SStr {
 			return SV{T: App("str.concat", SStr, x, y)}
 		}
-		return ex.wrapInt(SV{T: Add(x, y)}, ta)
+		return ex.arithResult(st, SV{T: Add(x, y)}, ta, node)
 	case token.SUB:
-		return ex.wrapInt(SV{T: Sub(x, y)}, ta)
+		return ex.arithResult(st, SV{T: Sub(x, y)}, ta, node)
 	case token.MUL:
-		return ex.wrapInt(SV{T: Mul(x, y)}, ta)
+		return ex.arithResult(st, SV{T: Mul(x, y)}, ta, node)
 	case token.QUO, token.REM:
 		g := And(Ge(x, Zero), Gt(y, Zero))
 		if !g.IsTrue() {
@@ -333,12 +333,12 @@ func (ex *Exec) binop(st *State, op token.Token, a, b Val, ta, tb types.Type, no
 		return SV{T: Ge(x, y)}
 	case token.SHL:
 		if y.IsInt() {
-			return ex.wrapInt(SV{T: Mul(x, BigLit(new(big.Int).Lsh(big.NewInt(1), uint(y.Int64()))))}, ta)
+			return ex.arithResult(st, SV{T: Mul(x, BigLit(new(big.Int).Lsh(big.NewInt(1), uint(y.Int64()))))}, ta, node)
 		}
 		g := And(Ge(y, Zero), Lt(y, IntLit(63)))
 		ex.oblige(st, "arith-domain", ex.site("shift-range"), g, node)
 		st.assume(g)
-		return SV{T: Mul(x, App("bits.pow2", SInt, y))}
+		return ex.arithResult(st, SV{T: Mul(x, App("bits.pow2", SInt, y))}, ta, node)
 	case token.SHR:
 		g := Ge(x, Zero)
 		if !g.IsTrue() {
@@ -375,6 +375,41 @@ func (ex *Exec) binop(st *State, op token.Token, a, b Val, ta, tb types.Type, no
 		panic(unsupported("bitwise & with non-mask operand at %s", ex.pos(node)))
 	}
 	panic(unsupported("binary operator %s at %s", op, ex.pos(node)))
+}
+
+// arithResult is the value of an integer +, -, *, << of static type t whose mathematical result is v: unsigned
+// results wrap (wrapInt); a signed result must lie in the type's range — an `overflow` obligation where it stands,
+// assumed afterwards (so that integers may be treated as mathematical in everything that follows). Functions
+// whose contract says `opt no-overflow` keep the old behaviour and list it as an assumption.
+func (ex *Exec) arithResult(st *State, v SV, t types.Type, node ast.Node) Val {
+	if t == nil {
+		return v
+	}
+	b, ok := t.Underlying().(*types.Basic)
+	if !ok || b.Info()&types.IsInteger == 0 || b.Info()&types.IsUnsigned != 0 || b.Info()&types.IsUntyped != 0 {
+		return ex.wrapInt(v, t)
+	}
+	k := kindOf(t)
+	if k.Lo == "" {
+		return v
+	}
+	lo, _ := new(big.Int).SetString(k.Lo, 10)
+	hi, _ := new(big.Int).SetString(k.Hi, 10)
+	if v.T.IsInt() {
+		if v.T.Int.Cmp(lo) >= 0 && v.T.Int.Cmp(hi) <= 0 {
+			return v
+		}
+	}
+	if ex.ct != nil && ex.ct.Opts["no-overflow"] != "" {
+		ex.note("signed integer arithmetic in %s treated as mathematical (opt no-overflow)", ex.fi.Key)
+		return v
+	}
+	g := And(Le(BigLit(lo), v.T), Le(v.T, BigLit(hi)))
+	if !g.IsTrue() {
+		ex.oblige(st, "overflow", ex.site("overflow"), g, node)
+		st.assume(g)
+	}
+	return v
 }
 
 // wrapInt applies modular wrap-around for unsigned fixed-width results when the value may exceed the range.
